@@ -133,6 +133,37 @@ def r1b_should_skip(chk: Check) -> None:
 
 
 # --------------------------------------------------------------------------------------------- R1c FilterSet
+def filterset_clone_clause(chk: Check, RID: str) -> None:
+    P = chk.project
+    # clone: a new FilterSet over copies
+    cl = P.func("filters.py:FilterSet.clone")
+    r = simple_return_expr(cl)
+    construct = "clone() copies _includes and _excludes"
+    if len(r) == 1 and isinstance(r[0], ast.Call) and dotted(r[0].func) in ("FilterSet", "self.__class__", "type(self)"):
+        bad = []
+        for key in ("_includes", "_excludes"):
+            v = kwarg(r[0], key)
+            if v is None:
+                bad.append(f"{key} not passed")
+                continue
+            copied = (isinstance(v, ast.Call) and (last_attr(v) in ("copy", "set", "frozenset", "deepcopy", "deepclone"))) or isinstance(v, (ast.SetComp, ast.Set, ast.BinOp))
+            src_ok = f"self.{key}" in unparse(v, 200)
+            if not copied:
+                bad.append(f"{key}={unparse(v)} shares the set with the original")
+            elif not src_ok:
+                bad.append(f"{key} is not taken from self.{key}")
+        if bad:
+            chk.violation(RID, cl, construct, "; ".join(bad) + ": filters added to the clone also change the schema it was derived from (and vice versa)", cl.loc())
+        else:
+            chk.ok(RID, cl, construct, "", cl.loc())
+    elif len(r) == 1 and (unparse(r[0]) in ("self", "replace(self)", "copy(self)", "copy.copy(self)") or (isinstance(r[0], ast.Call) and last_attr(r[0]) in ("replace", "copy") and "self" in names_in(r[0]))):
+        chk.violation(RID, cl, construct, f"`{unparse(r[0])}` is a shallow copy: the clone shares its include/exclude sets with the original, so deriving a second filtered schema changes the first", cl.loc())
+    elif len(r) == 1 and isinstance(r[0], ast.Call) and last_attr(r[0]) in ("deepcopy", "deepclone"):
+        chk.ok(RID, cl, construct, "deep copy", cl.loc())
+    else:
+        chk.undecided(RID, cl, construct, "clone shape not recognised", cl.loc())
+
+
 def r1c_filterset(chk: Check) -> None:
     chk.rule("C07.R1c", "FilterSet.match = (no exclude filter matches) and (no include filters or some include filter matches); Filter.match = all matchers; include/exclude feed the right set; clone copies both sets", floor=8)
     P = chk.project
@@ -212,33 +243,7 @@ def r1c_filterset(chk: Check) -> None:
                 if isinstance(a0, ast.Constant):
                     chk.decide(a0.value is flag, "C07.R1c", fn, f"FilterSet.{name} -> _add_filter({flag})", f"FilterSet.{name} registers the opposite kind of filter", fn.loc(c))
                 check_identity_forwarding(chk, "C07.R1c", fn, c, required=[p for p in params_of(fn.node) if p != "self"], what="self._add_filter")
-    # clone: a new FilterSet over copies
-    cl = P.func("filters.py:FilterSet.clone")
-    r = simple_return_expr(cl)
-    construct = "clone() copies _includes and _excludes"
-    if len(r) == 1 and isinstance(r[0], ast.Call) and dotted(r[0].func) in ("FilterSet", "self.__class__", "type(self)"):
-        bad = []
-        for key in ("_includes", "_excludes"):
-            v = kwarg(r[0], key)
-            if v is None:
-                bad.append(f"{key} not passed")
-                continue
-            copied = (isinstance(v, ast.Call) and (last_attr(v) in ("copy", "set", "frozenset", "deepcopy", "deepclone"))) or isinstance(v, (ast.SetComp, ast.Set, ast.BinOp))
-            src_ok = f"self.{key}" in unparse(v, 200)
-            if not copied:
-                bad.append(f"{key}={unparse(v)} shares the set with the original")
-            elif not src_ok:
-                bad.append(f"{key} is not taken from self.{key}")
-        if bad:
-            chk.violation("C07.R1c", cl, construct, "; ".join(bad) + ": filters added to the clone also change the schema it was derived from (and vice versa)", cl.loc())
-        else:
-            chk.ok("C07.R1c", cl, construct, "", cl.loc())
-    elif len(r) == 1 and (unparse(r[0]) in ("self", "replace(self)", "copy(self)", "copy.copy(self)") or (isinstance(r[0], ast.Call) and last_attr(r[0]) in ("replace", "copy") and "self" in names_in(r[0]))):
-        chk.violation("C07.R1c", cl, construct, f"`{unparse(r[0])}` is a shallow copy: the clone shares its include/exclude sets with the original, so deriving a second filtered schema changes the first", cl.loc())
-    elif len(r) == 1 and isinstance(r[0], ast.Call) and last_attr(r[0]) in ("deepcopy", "deepclone"):
-        chk.ok("C07.R1c", cl, construct, "deep copy", cl.loc())
-    else:
-        chk.undecided("C07.R1c", cl, construct, "clone shape not recognised", cl.loc())
+    filterset_clone_clause(chk, "C07.R1c")
 
 
 # --------------------------------------------------------------------------------------------- R2 / R3
